@@ -97,11 +97,11 @@ CHECKS = {
         "pkg": "c10",
         "level": "exploration",
         "tests": [
-            T("TestC10Merge", (400, 2), (6000, 16)),
-            T("TestC10Replace", (400, 2), (5500, 16)),
-            T("TestC10Split", (400, 2), (7000, 16)),
-            T("TestC10Downres", (100, 4), (1000, 16)),
-            T("TestC10Sequences", (400, 2), (7000, 16)),
+            T("TestC10Merge", (1000, 2), (3600, 16)),
+            T("TestC10Replace", (1000, 2), (3300, 16)),
+            T("TestC10Split", (1000, 2), (4200, 16)),
+            T("TestC10Downres", (250, 4), (600, 16)),
+            T("TestC10Sequences", (1000, 2), (4200, 16)),
         ],
         "required_classes": ["op=merge/target-present", "op=merge/target-absent", "op=merge/merged-present", "op=merge/merged-absent", "op=merge/merged-everything", "op=merge/on-merged-block",
                              "op=replace/source-zero", "op=replace/dest-zero", "op=replace/identity", "op=replace/dest-present", "op=replace/chain-a->b,b->c", "op=replacemap/chain-a->b,b->c", "op=replacemap/source-zero", "op=replacemap/dest-zero",
@@ -125,5 +125,16 @@ CHECKS = {
         "required_classes": ["merge/open-parent", "merge/unknown-parent", "merge/repeated-parent", "merge/foreign-parent", "duplicate-caller-uuid", "tag-equal-to-existing-uuid", "branch-name-reuse", "repo-delete", "malformed-body"],
         "rule": "rapid-generated request histories (<=40) over new repo / commit / newversion / branch / tag / merge / resolve / note / log / instance create / rename / delete / repo delete in up to 3 repos, each operand drawn from kinds (uuid: none|fresh|existing here|existing elsewhere|malformed|empty; address: full|prefix|root:branch|unknown|malformed; branch names fresh|existing|master|empty|odd; merge parents committed|open|unknown|repeated|foreign; bodies valid|missing fields|wrong types|empty|truncated). After every request the whole metadata (repos/info + identifier maps) is snapshotted: invariants checked, a rejected request must leave it identical, an accepted DAG-growing request must add exactly one node with the requested parents. Non-trivial: >=1 rejected request and >=2 accepted DAG-growing requests. Distinct = hash of the op list.",
         "assumptions": ["status codes are not relied on beyond 2xx vs not-2xx", "linearity is asserted for branch names created through the branch endpoint (master can legitimately fork through merges, which are filed under the default branch)"],
+    },
+    "C08": {
+        "pkg": "c08",
+        "level": "exploration",
+        "tests": [
+            T("TestC08Machine", (30, 4), (500, 16)),
+        ],
+        "required_classes": ["applied/merge", "applied/cleave", "applied/splitsv", "applied/renumber", "applied/mutate", "applied/version"],
+        "rule": "rapid-generated model-based histories on a labelmap instance (16^3 blocks, 3x2x2 block extent at origins incl. negative block coordinates; canvas painted from 3-12 boxes of palette supervoxels, labels up to 2^40): ingest via POST raw / POST blocks onto unwritten blocks, raw?mutate=true repaints, merge, cleave, split-supervoxel (5 shapes, with/without caller ids), renumber, commit/newversion/branch. After every mutation: stored voxels and mapping vs the reference model; then every read endpoint (raw mapped, blocks, sizes, size, supervoxels, supervoxel-sizes, index, sparsevol-size, sparsevol rles/srles/blocks, sparsevol-coarse, label, labels, listlabels, existing-labels, maxlabel) vs scan+mapping of the server's own stored voxels; all other versions' digests unchanged; final sweep of every version. Non-trivial: >=2 different proofreading/mutating op kinds applied and >=1 new version. Distinct = hash of the case value.",
+        "assumptions": ["split volumes are proper non-empty subsets of the target supervoxel; cleaves never take every supervoxel; merges name distinct existing bodies; new supervoxel ids written after allocations come from the initial palette (registered with the label counter by the first ingest) — the documented domains",
+                        "server-chosen ids are compared by freshness, not by value"],
     },
 }
